@@ -8,6 +8,7 @@ Model of the C++ by the agreement theorems `decode*_eq` / `encode*_ok`.
 Payload level (the compressed bytes are not compared).
 -/
 import Proofs.ImplV2Lists
+import Proofs.SetterFrame
 
 namespace EngineModel.Properties.C04
 open EngineModel EngineModel.Codec EngineModel.V2 EngineModel.Impl.V2
@@ -95,5 +96,102 @@ theorem C04_normBool_id (bs : Bytes) (raw : CuesRaw) (extra : Bytes)
 /-- Non-vacuity: a foreign quick-cues payload with flag byte 7 and two trailing bytes. -/
 example : decodeCues ([0,0,0,0,0,0,0,0] ++ [0,0,0,0,0,0,0,1] ++ [7] ++ [0,0,0,0,0,0,0,2] ++ [0xaa, 0xbb])
     = .ok (⟨[], 1, true, 2⟩, [0xaa, 0xbb]) := by decide
+
+/-! ## setter frame: a read-modify-write setter changes only the bytes of the field it names
+
+`TracksV2.applySetter` (lean/EngineModel/TracksV2/Lens.lean, the Model of `v2::track_impl`'s setters on
+one Track row whose five BLOB columns are kept as decoded value + trailing `extra_data`) is related to
+the stored payload bytes through the Spec encoders (`payloadTrack … payloadLoops`): for each of the nine
+read-modify-write setters every other column's payload is unchanged and, inside the touched column,
+only the byte range of the named field may differ (`AgreeOutside a b`: equal length, equal before `a`
+and from `b` on).  The row is arbitrary — foreign entry counts, labelled or coloured empty slots, odd
+flag bytes (already normalised by decoding: `C04_v2_cues_reencode`), any trailing bytes. -/
+section SetterFrame
+open EngineModel.SetterFrame EngineModel.TracksV2
+
+theorem C04_setter_frame_hot_cue_at (ops : FOps) (i : UInt32) (v : Option HotCue) (r r' : Row)
+    (h : applySetter ops (.hotCueAt i v) r = .ok r') :
+    payloadTrack r' = payloadTrack r ∧ payloadOvw r' = payloadOvw r ∧ payloadBeat r' = payloadBeat r ∧
+    payloadLoops r' = payloadLoops r ∧
+    ∃ pre post old, payloadCues r = pre ++ V2.cue.enc old ++ post ∧
+      payloadCues r' = pre ++ V2.cue.enc (writeHotCue v) ++ post ∧ r.cues.1.cues[i.toNat]? = some old :=
+  frame_hotCueAt ops i v r r' h
+
+theorem C04_setter_frame_loop_at (ops : FOps) (i : UInt32) (v : Option LoopV) (r r' : Row)
+    (h : applySetter ops (.loopAt i v) r = .ok r') :
+    payloadTrack r' = payloadTrack r ∧ payloadOvw r' = payloadOvw r ∧ payloadBeat r' = payloadBeat r ∧
+    payloadCues r' = payloadCues r ∧
+    ∃ pre post old, payloadLoops r = pre ++ V2.loop.enc old ++ post ∧
+      payloadLoops r' = pre ++ V2.loop.enc (writeLoop v) ++ post ∧ r.loops.1[i.toNat]? = some old :=
+  frame_loopAt ops i v r r' h
+
+theorem C04_setter_frame_main_cue (ops : FOps) (v : Option F) (r r' : Row)
+    (h : applySetter ops (.mainCue v) r = .ok r') :
+    payloadTrack r' = payloadTrack r ∧ payloadOvw r' = payloadOvw r ∧ payloadBeat r' = payloadBeat r ∧
+    payloadLoops r' = payloadLoops r ∧
+    ∃ pre mid mid', payloadCues r = pre ++ mid ++ r.cues.2 ∧ payloadCues r' = pre ++ mid' ++ r.cues.2 ∧
+      mid.length = 17 ∧ mid'.length = 17 :=
+  frame_mainCue ops v r r' h
+
+theorem C04_setter_frame_hot_cues (ops : FOps) (v : List (Option HotCue)) (r r' : Row)
+    (h : applySetter ops (.hotCues v) r = .ok r') :
+    payloadTrack r' = payloadTrack r ∧ payloadOvw r' = payloadOvw r ∧ payloadBeat r' = payloadBeat r ∧
+    payloadLoops r' = payloadLoops r ∧
+    ∃ head head' tail, payloadCues r = head ++ tail ∧ payloadCues r' = head' ++ tail ∧
+      tail.length = 17 + r.cues.2.length :=
+  frame_hotCues ops v r r' h
+
+theorem C04_setter_frame_average_loudness (ops : FOps) (v : Option F) (r r' : Row)
+    (h : applySetter ops (.averageLoudness v) r = .ok r') :
+    AgreeOutside 20 44 (payloadTrack r) (payloadTrack r') ∧ payloadOvw r' = payloadOvw r ∧
+    payloadBeat r' = payloadBeat r ∧ payloadCues r' = payloadCues r ∧ payloadLoops r' = payloadLoops r :=
+  frame_averageLoudness ops v r r' h
+
+theorem C04_setter_frame_key (ops : FOps) (v : Option UInt32) (r r' : Row)
+    (h : applySetter ops (.key v) r = .ok r') :
+    AgreeOutside 16 20 (payloadTrack r) (payloadTrack r') ∧ payloadOvw r' = payloadOvw r ∧
+    payloadBeat r' = payloadBeat r ∧ payloadCues r' = payloadCues r ∧ payloadLoops r' = payloadLoops r :=
+  frame_key ops v r r' h
+
+theorem C04_setter_frame_sample_count (ops : FOps) (v : Option UInt64) (r r' : Row)
+    (h : applySetter ops (.sampleCount v) r = .ok r') :
+    AgreeOutside 8 16 (payloadTrack r) (payloadTrack r') ∧ AgreeOutside 8 16 (payloadBeat r) (payloadBeat r') ∧
+    payloadOvw r' = payloadOvw r ∧ payloadCues r' = payloadCues r ∧ payloadLoops r' = payloadLoops r :=
+  frame_sampleCount ops v r r' h
+
+theorem C04_setter_frame_sample_rate (ops : FOps) (v : Option F) (r r' : Row)
+    (h : applySetter ops (.sampleRate v) r = .ok r') :
+    AgreeOutside 0 8 (payloadTrack r) (payloadTrack r') ∧ AgreeOutside 0 8 (payloadBeat r) (payloadBeat r') ∧
+    payloadOvw r' = payloadOvw r ∧ payloadCues r' = payloadCues r ∧ payloadLoops r' = payloadLoops r :=
+  frame_sampleRate ops v r r' h
+
+theorem C04_setter_frame_beatgrid (ops : FOps) (g : List GMarker) (r r' : Row)
+    (h : applySetter ops (.beatgrid g) r = .ok r') :
+    payloadTrack r' = payloadTrack r ∧ payloadOvw r' = payloadOvw r ∧ payloadCues r' = payloadCues r ∧
+    payloadLoops r' = payloadLoops r ∧
+    ∃ mid mid', payloadBeat r = (payloadBeat r).take 16 ++ mid ++ r.beat.2 ∧
+      payloadBeat r' = (payloadBeat r).take 16 ++ mid' ++ r.beat.2 :=
+  frame_beatgrid ops g r r' h
+
+/-- non-vacuity: the hypotheses are satisfiable on a foreign-looking row (3 cue entries, a labelled and
+coloured empty slot, flag set, two trailing bytes) -/
+example : ∃ r', applySetter ops0 (.hotCueAt 0 (some cue0)) row0 = .ok r' := ⟨_, rfl⟩
+
+/- Full statement for the two whole-column setters that are NOT read-modify-write (FALSE of the code —
+KNOWN FINDING `v2-set-loops-waveform-drop-extra-data`):
+     applySetter ops (.loops v) r = .ok r' → ∃ head head', payloadLoops r = head ++ r.loops.2 ∧ payloadLoops r' = head' ++ r.loops.2
+   `track_impl::set_loops` and `set_waveform` build a fresh blob: the trailing extra_data of the
+   loops / overview-waveform column is dropped. -/
+theorem C04_setter_frame_loops_counterexample :
+    ∃ r', applySetter ops0 (.loops (getLoops rowL)) rowL = .ok r' ∧
+      payloadLoops rowL = payloadLoops r' ++ [0xcc] ∧ payloadLoops r' ≠ payloadLoops rowL :=
+  loops_setter_counterexample
+
+theorem C04_setter_frame_waveform_counterexample :
+    ∃ r', applySetter ops0 (.waveform (getWaveform row0)) row0 = .ok r' ∧
+      payloadOvw row0 = payloadOvw r' ++ [0x09] ∧ payloadOvw r' ≠ payloadOvw row0 :=
+  waveform_setter_counterexample
+
+end SetterFrame
 
 end EngineModel.Properties.C04
